@@ -96,12 +96,18 @@ fn mu_plus_lambda(np: usize, no: usize, mu: u32) {
         }
     }
 }
-/// @verif anchor=MuPlusLambda::replace bound="2 parents, 1 offspring; mu in 0..4; all tags/objectives incl. ties and +inf"
+/// @verif anchor=MuPlusLambda::replace bound="2 parents, 1 offspring; mu = 1; all tags/objectives incl. ties and +inf"
 #[cfg_attr(kani, kani::proof)] #[cfg_attr(kani, kani::unwind(8))]
-pub fn c12_mupluslambda_2_1() { mu_plus_lambda(2, 1, 0); mu_plus_lambda(2, 1, 1); mu_plus_lambda(2, 1, 2); mu_plus_lambda(2, 1, 3); mu_plus_lambda(2, 1, 4); }
-/// @verif anchor=MuPlusLambda::replace tier=thorough bound="2 parents, 2 offspring; mu in {0,1,2,3,4,7}"
+pub fn c12_mupluslambda_2_1_mu1() { mu_plus_lambda(2, 1, 1) }
+/// @verif anchor=MuPlusLambda::replace bound="2 parents, 1 offspring; mu = 2; all tags/objectives incl. ties and +inf"
 #[cfg_attr(kani, kani::proof)] #[cfg_attr(kani, kani::unwind(8))]
-pub fn c12_mupluslambda_2_2() { mu_plus_lambda(2, 2, 0); mu_plus_lambda(2, 2, 1); mu_plus_lambda(2, 2, 2); mu_plus_lambda(2, 2, 3); mu_plus_lambda(2, 2, 4); mu_plus_lambda(2, 2, 7); }
+pub fn c12_mupluslambda_2_1_mu2() { mu_plus_lambda(2, 1, 2) }
+/// @verif anchor=MuPlusLambda::replace tier=thorough bound="2 parents, 1 offspring; mu in {0, 3, 4}"
+#[cfg_attr(kani, kani::proof)] #[cfg_attr(kani, kani::unwind(8))]
+pub fn c12_mupluslambda_2_1_rest() { mu_plus_lambda(2, 1, 0); mu_plus_lambda(2, 1, 3); mu_plus_lambda(2, 1, 4); }
+/// @verif anchor=MuPlusLambda::replace tier=thorough bound="2 parents, 2 offspring; mu in {1, 2, 3}"
+#[cfg_attr(kani, kani::proof)] #[cfg_attr(kani, kani::unwind(8))]
+pub fn c12_mupluslambda_2_2() { mu_plus_lambda(2, 2, 1); mu_plus_lambda(2, 2, 2); mu_plus_lambda(2, 2, 3); }
 
 fn random_replacement(np: usize, no: usize, mu: u32) {
     let (p, o) = (sym_population(np), sym_population(no));
